@@ -1505,53 +1505,67 @@ func (vc *FuncVC) escapingClosureWrites() (comps []string, total bool) {
 			if !escapes {
 				continue
 			}
-			fn := mc.Fn.(*ssa.Function)
-			for _, fb := range fn.Blocks {
-				for _, fi := range fb.Instrs {
-					switch x := fi.(type) {
-					case *ssa.Store:
-						for _, c := range vc.storeComps(x.Addr) {
-							set[c] = true
-						}
-					case *ssa.MapUpdate:
-						dc, vn := vc.mapComps(x.Map.Type().Underlying().(*types.Map))
-						set[dc], set[vn] = true, true
-					case ssa.CallInstruction:
-						if bi, ok := x.Common().Value.(*ssa.Builtin); ok {
-							switch bi.Name() {
-							case "append", "copy":
-								elem := x.Common().Args[0].Type().Underlying().(*types.Slice).Elem()
-								if isStruct(elem) {
-									for _, c := range vc.leafComps(elem, "") {
-										set[c] = true
-									}
-								} else {
-									set[vc.elemComp(elem)] = true
-								}
-							case "delete":
-								dc, _ := vc.mapComps(x.Common().Args[0].Type().Underlying().(*types.Map))
-								set[dc] = true
-							}
-							continue
-						}
-						name, _, callee := vc.calleeName(x.Common())
-						if con := vc.P.CS.Funcs[name]; con != nil && (con.Pure || (con.HasAssgn && len(con.Assigns) == 0)) {
-							continue
-						}
-						if _, ok := vc.libCall0(name); ok {
-							continue
-						}
-						// calls that leave the repository (interface methods, func values, library
-						// functions) have the effect of any opaque call: nothing protected is written
-						if callee == nil || !vc.P.inRepoPkg(pkgOf(callee)) {
-							continue
-						}
-						vc.cloTotal = true
-					}
-				}
-			}
+			vc.scanFnWrites(mc.Fn.(*ssa.Function), set, 0)
 		}
 	}
 	vc.cloWrites = sortedKeys(set)
 	return vc.cloWrites, vc.cloTotal
+}
+
+// scanFnWrites collects the heap components a function body may write; callees inside
+// the repository without a usable frame are scanned recursively (bounded), anything
+// deeper makes the effect unknown (cloTotal).
+func (vc *FuncVC) scanFnWrites(fn *ssa.Function, set map[string]bool, depth int) {
+	if fn.Blocks == nil || depth > 3 {
+		vc.cloTotal = true
+		return
+	}
+	for _, fb := range fn.Blocks {
+		for _, fi := range fb.Instrs {
+			switch x := fi.(type) {
+			case *ssa.Store:
+				for _, c := range vc.storeComps(x.Addr) {
+					set[c] = true
+				}
+			case *ssa.MapUpdate:
+				dc, vn := vc.mapComps(x.Map.Type().Underlying().(*types.Map))
+				set[dc], set[vn] = true, true
+			case ssa.CallInstruction:
+				if bi, ok := x.Common().Value.(*ssa.Builtin); ok {
+					switch bi.Name() {
+					case "append", "copy":
+						elem := x.Common().Args[0].Type().Underlying().(*types.Slice).Elem()
+						if isStruct(elem) {
+							for _, c := range vc.leafComps(elem, "") {
+								set[c] = true
+							}
+						} else {
+							set[vc.elemComp(elem)] = true
+						}
+					case "delete":
+						dc, _ := vc.mapComps(x.Common().Args[0].Type().Underlying().(*types.Map))
+						set[dc] = true
+					}
+					continue
+				}
+				name, _, callee := vc.calleeName(x.Common())
+				if con := vc.P.CS.Funcs[name]; con != nil && (con.Pure || (con.HasAssgn && len(con.Assigns) == 0)) {
+					continue
+				}
+				if con := vc.P.CS.Funcs[name]; con != nil && con.HasAssgn && len(con.Assigns) == 1 && con.Assigns[0] == "\\opaque" {
+					// writes nothing that opaque code could not write
+					continue
+				}
+				if _, ok := vc.libCall0(name); ok {
+					continue
+				}
+				// calls that leave the repository (interface methods, func values, library
+				// functions) have the effect of any opaque call: nothing protected is written
+				if callee == nil || !vc.P.inRepoPkg(pkgOf(callee)) {
+					continue
+				}
+				vc.scanFnWrites(callee, set, depth+1)
+			}
+		}
+	}
 }
